@@ -84,6 +84,7 @@ AXIOMS_OK = []
 # (execute, then commit, on the connection opened at entry; the retry on sqlite3.OperationalError) is translated and proved to have
 # the shape of Crash.resync / Crash.sync_all_steps when every statement is accepted (GenProofs/StoreEquiv.v)
 from harness.core import translated_specs
+RERUN_TO_CONFIRM = True      # timed kills / lock holders / watchdogs: failures count only if the identical pass fails twice (core._run_confirmed)
 TRANSLATED = translated_specs("SignedCostsGen", "JobGen", "StoreGen")
 TRUSTED = [
     "Coq 8.16.1 kernel, vm_compute for model evaluation (no native_compute)",
